@@ -24,7 +24,8 @@ def main():
     for k, job in enumerate(jobs):
         # what the library does must not depend on its log level: every third job of a worker runs with the library's
         # debug logging switched on (records are built and dropped)
-        lib_log.setLevel(logging.DEBUG if k % 3 == 1 else logging.WARNING)
+        # ... and every third with everything below ERROR switched off (what users do to silence a noisy gateway)
+        lib_log.setLevel((logging.WARNING, logging.DEBUG, logging.ERROR)[k % 3])
         if "replay" in job:
             res = mod.replay(job["replay"])
         else:
